@@ -532,4 +532,113 @@ example : writesOf [Op.setHeader (.b (bs "x-a")) (.b (bs "1\n")), .write (bs "ab
     [Op.setHeader (.b (bs "x-a")) (.b (bs "1\n")), .write (bs "ab"), .setCode 500 none, .write (bs "c")].takeWhile isSetup =
       [Op.setHeader (.b (bs "x-a")) (.b (bs "1\n"))] := by decide
 
+/-! ### the request's Connection header; several requests on one connection (white-box audit) -/
+
+/-- what decides whether the connection is closed: a finished request has closed it iff the channel is not persistent -/
+def ClosedInv (r : Req) : Prop := r.finished = true → r.closed = !r.persistent
+
+theorem write_keeps (r : Req) (d : Bytes) :
+    (write r d).1.finished = r.finished ∧ (write r d).1.closed = r.closed ∧ (write r d).1.persistent = r.persistent := by
+  unfold write
+  split
+  · exact ⟨rfl, rfl, rfl⟩
+  · split
+    · exact ⟨rfl, rfl, rfl⟩
+    · by_cases hs : r.started = true
+      · simp only [hs, if_true]
+        split <;> (try split) <;> (try split) <;> exact ⟨rfl, rfl, rfl⟩
+      · simp only [hs, if_false, Bool.false_eq_true]
+        split <;> (try split) <;> (try split) <;> exact ⟨rfl, rfl, rfl⟩
+
+theorem finish_keeps (r : Req) (hf : r.finished = false) :
+    (finish r).persistent = r.persistent ∧ (finish r).finished = true ∧ (finish r).closed = !r.persistent := by
+  obtain ⟨h1, h2, h3⟩ := write_keeps r []
+  unfold finish
+  simp only [hf, Bool.false_eq_true, if_false]
+  by_cases hs : r.started = true
+  · simp only [hs, if_true]
+    split <;> simp
+  · simp only [hs, if_false, Bool.false_eq_true]
+    split <;> simp [h3]
+
+theorem step_keeps (r : Req) (op : Op) :
+    (step r op).1.persistent = r.persistent ∧ ((step r op).1.finished = r.finished ∧ (step r op).1.closed = r.closed ∨
+      (r.finished = false ∧ (step r op).1.finished = true ∧ (step r op).1.closed = !r.persistent)) := by
+  by_cases hop : isSetup op = true
+  · have := wire_setup r op hop
+    simp only [wire, Prod.mk.injEq] at this
+    exact ⟨this.2.2.1, Or.inl ⟨this.2.2.2.2.2.2.1, this.2.2.2.2.2.2.2.2⟩⟩
+  · cases op with
+    | write d =>
+      obtain ⟨h1, h2, h3⟩ := write_keeps r d
+      exact ⟨h3, Or.inl ⟨h1, h2⟩⟩
+    | finish =>
+      by_cases hf : r.finished = true
+      · simp [step, finish, hf]
+      · have hf' : r.finished = false := by simpa using hf
+        obtain ⟨a, b, c⟩ := finish_keeps r hf'
+        exact ⟨a, Or.inr ⟨hf', b, c⟩⟩
+    | setCode _ _ => simp [isSetup] at hop
+    | setHeader _ _ => simp [isSetup] at hop
+    | addHeader _ _ => simp [isSetup] at hop
+    | setRaw _ _ => simp [isSetup] at hop
+    | remove _ => simp [isSetup] at hop
+    | addCookie _ _ _ => simp [isSetup] at hop
+
+theorem runFrom_closedInv (ops : List Op) : ∀ (r : Req) (i : Nat), ClosedInv r →
+    ClosedInv (runFrom r i ops).1 ∧ (runFrom r i ops).1.persistent = r.persistent := by
+  induction ops with
+  | nil => intro r i h; exact ⟨h, rfl⟩
+  | cons op ops ih =>
+    intro r i h
+    rw [runFrom_cons_fst]
+    obtain ⟨hp, hk⟩ := step_keeps r op
+    have h' : ClosedInv (step r op).1 := by
+      intro hf
+      rcases hk with ⟨h1, h2⟩ | ⟨_, _, h3⟩
+      · rw [h2, hp]; exact h (h1 ▸ hf)
+      · rw [h3, hp]
+    obtain ⟨a, b⟩ := ih _ (i + 1) h'
+    exact ⟨a, b.trans hp⟩
+
+/-- **The connection is closed exactly when the channel is not persistent**, after every history that finishes -/
+theorem closed_iff_not_persistent (p11 head cc : Bool) (pre tail : List Op) :
+    (run (init p11 head cc) (pre ++ Op.finish :: tail)).1.closed = !(p11 && !cc) := by
+  have hinv : ClosedInv (init p11 head cc) := by intro h; simp [init] at h
+  obtain ⟨a, b⟩ := runFrom_closedInv (pre ++ Op.finish :: tail) (init p11 head cc) 0 hinv
+  have hfin : (run (init p11 head cc) (pre ++ Op.finish :: tail)).1.finished = true := by
+    have e : pre ++ Op.finish :: tail = (pre ++ [Op.finish]) ++ tail := by simp
+    show (runFrom _ 0 _).1.finished = true
+    rw [e, runFrom_append_fst]
+    have h0 := run_snoc_finish_finished (init p11 head cc) pre
+    have := runFrom_finished tail _ (0 + (pre ++ [Op.finish]).length) h0
+    simp only [wire, Prod.mk.injEq] at this
+    exact this.2.2.2.2.2.2.1.trans h0
+  have := a hfin
+  rw [b] at this
+  exact this
+
+/-- **An HTTP/1.0 response always ends with the connection being closed**, whatever the request's Connection header
+    asked for (`keep-alive` included): without a Content-Length nothing else delimits its body. -/
+theorem http10_response_closes_connection (head : Bool) (conn : Option Bytes) (pre tail : List Op) :
+    (run (initConn false head conn) (pre ++ Op.finish :: tail)).1.closed = true := by
+  unfold initConn
+  rw [closed_iff_not_persistent]; rfl
+
+/-- **C20 for every `Connection` request header.** -/
+theorem emits_one_wellformed_response_any_connection_header (p11 head : Bool) (conn : Option Bytes) (pre tail : List Op)
+    (hnf : Op.finish ∉ pre)
+    (wf : WellFormed (run (initConn p11 head conn) (pre.takeWhile isSetup)).1 (writesOf pre)) :
+    let s := (run (initConn p11 head conn) (pre.takeWhile isSetup)).1
+    let r := (run (initConn p11 head conn) (pre ++ Op.finish :: tail)).1
+    parseResponse head r.closed r.out =
+      some ⟨s.code, fieldContent s.reason, wireFields (finalHeaders s),
+            if head || noBodyCode s.code then [] else (writesOf pre).flatten⟩ :=
+  emits_one_wellformed_response_any_history p11 head _ pre tail hnf wf
+
+example : connClose (bs "keep-alive, close") = true ∧ connClose (bs "keep-alive,close") = false ∧ connClose (bs " Close\t") = true ∧
+    connClose (bs "keep-alive") = false ∧ connClose [] = false := by decide
+example : (run (initConn false false (some (bs "keep-alive"))) [.write (bs "abc"), .finish]).1.closed = true ∧
+    (run (initConn true false (some (bs "keep-alive"))) [.write (bs "abc"), .finish]).1.closed = false := by decide +kernel
+
 end TwistedProps.C20
